@@ -1,6 +1,11 @@
 // Blowfish: conformance of the data path to Schneier's description on an ARBITRARY state (P array and S-boxes fully
 // symbolic), big- and little-endian block variants (C09), round trips (C01), dev-profile obligations of round_function /
 // next_u32_wrap / encrypt / decrypt on fully symbolic inputs (C20).  Key expansion: see expand.rs.
+//   L  bf_round_function      round_function(x) == F(x) on arbitrary S-boxes, all x          (direct)
+//   L  bf_next_u32_wrap       cyclic big-endian reader, buffer length symbolic
+//   W  bf_conf_*, bf_le_*     16 rounds + P18/P17 whitening, halves BE / LE, round_function uninterpreted and shared with the
+//                             oracle (the direct queries on a fully symbolic state -- 6.5 M clauses -- did not finish in 10 min)
+//   W  bf_roundtrip_*         Feistel: holds for ANY round function, so no leaf lemma is involved
 use super::prelude::*;
 use crate::Blowfish;
 use byteorder::{ByteOrder, BE, LE};
@@ -62,41 +67,57 @@ verif_harness! {
     }
 }
 
+// F is a function of (S-boxes, x); all calls of one harness see the same S-boxes (one state object, never modified by
+// encrypt / decrypt), so an uninterpreted function of x alone is the sound abstraction.
+fn no_concrete_f(_x: u32) -> u32 {
+    unreachable!() // natively the harnesses use the oracle's real F (cfg(not(kani)) arms below), never uf_f::call
+}
+uf1!(uf_f, u32, u32, [B0], no_concrete_f);
+pub fn stub_rf<T: ByteOrder>(_c: &Blowfish<T>, x: u32) -> u32 {
+    uf_f::call(x)
+}
+
 macro_rules! conf_harness {
-    ($name:ident, $T:ty, $le:expr, $method:ident, $oracle:path) => {
+    ($name:ident, $T:ty, $le:expr, $method:ident, $with:path, $plain:path) => {
         verif_harness! {
             name: $name,
             bytes: STATE + 8,
             unwind: 258,
+            stubs: [(crate::Blowfish::round_function, stub_rf)],
             prop: |inp| {
                 let c: Blowfish<$T> = arb_state(inp);
                 let blk: [u8; 8] = take(inp, STATE);
                 let mut b = blk.into();
                 c.$method(&mut b);
-                Some(b.0 == $oracle(&c.p, &c.s, &blk, $le))
+                #[cfg(kani)]
+                let e = r::store($with(&c.p, r::load(&blk, $le), uf_f::call), $le);
+                #[cfg(not(kani))]
+                let e = $plain(&c.p, &c.s, &blk, $le);
+                Some(b.0 == e)
             }
         }
     };
 }
 
-//@ harness name=bf_conf_enc_be prop=C09,C20 variants=blowfish tier=quick bits=33408 est=120 desc="D: Blowfish<BE>::encrypt_block on an arbitrary state (P, S fully symbolic: superset of every keyed state) == Schneier's 16-round encryption, halves big-endian, all blocks"
-conf_harness!(bf_conf_enc_be, BE, false, encrypt_block, r::encrypt_block);
-//@ harness name=bf_conf_dec_be prop=C09,C20 variants=blowfish tier=quick bits=33408 est=120 desc="D: Blowfish<BE>::decrypt_block on an arbitrary state == Schneier's decryption (P reversed), halves big-endian, all blocks"
-conf_harness!(bf_conf_dec_be, BE, false, decrypt_block, r::decrypt_block);
-//@ harness name=bf_conf_enc_le prop=C09,C20 variants=blowfish tier=quick bits=33408 est=120 desc="D: BlowfishLE::encrypt_block on an arbitrary state == the same permutation of the two 32-bit halves, halves read and written little-endian, all blocks"
-conf_harness!(bf_conf_enc_le, LE, true, encrypt_block, r::encrypt_block);
-//@ harness name=bf_conf_dec_le prop=C09,C20 variants=blowfish tier=quick bits=33408 est=120 desc="D: BlowfishLE::decrypt_block on an arbitrary state == Schneier's decryption with halves little-endian, all blocks"
-conf_harness!(bf_conf_dec_le, LE, true, decrypt_block, r::decrypt_block);
+//@ harness name=bf_conf_enc_be prop=C09,C20 variants=blowfish tier=quick bits=33408 stub=1 est=60 desc="W: Blowfish<BE>::encrypt_block on an arbitrary state (P, S fully symbolic: superset of every keyed state) == Schneier's 16-round encryption, halves big-endian, all blocks; round_function uninterpreted (bf_round_function)"
+conf_harness!(bf_conf_enc_be, BE, false, encrypt_block, r::encipher_with, r::encrypt_block);
+//@ harness name=bf_conf_dec_be prop=C09,C20 variants=blowfish tier=quick bits=33408 stub=1 est=60 desc="W: Blowfish<BE>::decrypt_block on an arbitrary state == Schneier's decryption (P reversed), halves big-endian, all blocks; round_function uninterpreted"
+conf_harness!(bf_conf_dec_be, BE, false, decrypt_block, r::decipher_with, r::decrypt_block);
+//@ harness name=bf_conf_enc_le prop=C09,C20 variants=blowfish tier=quick bits=33408 stub=1 est=60 desc="W: BlowfishLE::encrypt_block on an arbitrary state == the same permutation of the two 32-bit halves, halves read and written little-endian, all blocks; round_function uninterpreted"
+conf_harness!(bf_conf_enc_le, LE, true, encrypt_block, r::encipher_with, r::encrypt_block);
+//@ harness name=bf_conf_dec_le prop=C09,C20 variants=blowfish tier=quick bits=33408 stub=1 est=60 desc="W: BlowfishLE::decrypt_block on an arbitrary state == Schneier's decryption with halves little-endian, all blocks; round_function uninterpreted"
+conf_harness!(bf_conf_dec_le, LE, true, decrypt_block, r::decipher_with, r::decrypt_block);
 
 fn swap_halves(b: &[u8; 8]) -> [u8; 8] {
     [b[3], b[2], b[1], b[0], b[7], b[6], b[5], b[4]]
 }
 
-//@ harness name=bf_le_is_swapped_be prop=C09 variants=blowfish tier=quick bits=33408 est=120 desc="D: on the same arbitrary state, BlowfishLE enc/dec of b == byte-swap-each-half(Blowfish<BE> enc/dec of byte-swap-each-half(b)), all blocks"
+//@ harness name=bf_le_is_swapped_be prop=C09 variants=blowfish tier=quick bits=33408 stub=1 est=60 desc="W: on the same arbitrary state, BlowfishLE enc/dec of b == byte-swap-each-half(Blowfish<BE> enc/dec of byte-swap-each-half(b)), all blocks; round_function uninterpreted (same function for both instantiations: same S-boxes)"
 verif_harness! {
     name: bf_le_is_swapped_be,
     bytes: STATE + 8,
     unwind: 258,
+    stubs: [(crate::Blowfish::round_function, stub_rf)],
     prop: |inp| {
         let le: Blowfish<LE> = arb_state(inp);
         let be: Blowfish<BE> = arb_state(inp);
@@ -121,6 +142,7 @@ macro_rules! rt_harness {
             name: $name,
             bytes: STATE + 8,
             unwind: 258,
+            stubs: [(crate::Blowfish::round_function, stub_rf)],
             prop: |inp| {
                 let c: Blowfish<$T> = arb_state(inp);
                 let blk: [u8; 8] = take(inp, STATE);
@@ -133,11 +155,11 @@ macro_rules! rt_harness {
     };
 }
 
-//@ harness name=bf_roundtrip_ed_be prop=C01 variants=blowfish tier=quick bits=33408 est=120 desc="D: Blowfish<BE>: decrypt_block(encrypt_block(b)) == b on an arbitrary state (superset of every state reachable by keying with 4..=56 bytes or by bcrypt steps), all blocks"
+//@ harness name=bf_roundtrip_ed_be prop=C01 variants=blowfish tier=quick bits=33408 stub=1 est=60 desc="W: Blowfish<BE>: decrypt_block(encrypt_block(b)) == b on an arbitrary state (superset of every state reachable by keying with 4..=56 bytes or by bcrypt steps), all blocks; round_function uninterpreted (a Feistel network inverts for any round function)"
 rt_harness!(bf_roundtrip_ed_be, BE, encrypt_block, decrypt_block);
-//@ harness name=bf_roundtrip_de_be prop=C01 variants=blowfish tier=quick bits=33408 est=120 desc="D: Blowfish<BE>: encrypt_block(decrypt_block(b)) == b on an arbitrary state, all blocks"
+//@ harness name=bf_roundtrip_de_be prop=C01 variants=blowfish tier=quick bits=33408 stub=1 est=60 desc="W: Blowfish<BE>: encrypt_block(decrypt_block(b)) == b on an arbitrary state, all blocks; round_function uninterpreted"
 rt_harness!(bf_roundtrip_de_be, BE, decrypt_block, encrypt_block);
-//@ harness name=bf_roundtrip_ed_le prop=C01 variants=blowfish tier=quick bits=33408 est=120 desc="D: BlowfishLE: decrypt_block(encrypt_block(b)) == b on an arbitrary state, all blocks"
+//@ harness name=bf_roundtrip_ed_le prop=C01 variants=blowfish tier=quick bits=33408 stub=1 est=60 desc="W: BlowfishLE: decrypt_block(encrypt_block(b)) == b on an arbitrary state, all blocks; round_function uninterpreted"
 rt_harness!(bf_roundtrip_ed_le, LE, encrypt_block, decrypt_block);
-//@ harness name=bf_roundtrip_de_le prop=C01 variants=blowfish tier=quick bits=33408 est=120 desc="D: BlowfishLE: encrypt_block(decrypt_block(b)) == b on an arbitrary state, all blocks"
+//@ harness name=bf_roundtrip_de_le prop=C01 variants=blowfish tier=quick bits=33408 stub=1 est=60 desc="W: BlowfishLE: encrypt_block(decrypt_block(b)) == b on an arbitrary state, all blocks; round_function uninterpreted"
 rt_harness!(bf_roundtrip_de_le, LE, decrypt_block, encrypt_block);
